@@ -1,6 +1,44 @@
-(* C13 — conditional invalidation removes exactly the matching entries (core half). *)
-From CL Require Import PfC13.
+(* C13 — invalidation is precise and leaves capacity bookkeeping exact. *)
+From CL Require Import PfC13 PfRegistry.
 Theorem C13_invalidate_with_is_a_filter :
   forall c h, wf_cfg c = true -> check_trace c13_step c (trace c 0 init h) = true.
 Proof. exact c13_holds. Qed.
 Print Assumptions C13_invalidate_with_is_a_filter.
+
+Theorem C13_invalidate_with_touches_one_cache :
+  forall n ks w w' b,
+    invalidate_with n ks w = (w', b) ->
+    length w' = length w /\
+    (forall j e, nth_error w j = Some e ->
+       (cond_matches n e = true -> nth_error w' j = Some (set_st e (apply_inval ks (ce_st e)))) /\
+       (cond_matches n e = false -> nth_error w' j = Some e)) /\
+    b = existsb (cond_matches n) w /\
+    (b = true <-> exists e, In e w /\ cond_matches n e = true).
+Proof. exact invalidate_with_spec. Qed.
+Print Assumptions C13_invalidate_with_touches_one_cache.
+
+Theorem C13_removed_exactly_the_matching_entries :
+  forall ks s,
+    Struct (st_store s) (st_queue s) ->
+    let s' := apply_inval ks s in
+    Struct (st_store s') (st_queue s') /\
+    (forall x, In x (keys (st_store s')) <-> In x (keys (st_store s)) /\ ~ In x ks) /\
+    (forall x, lookup x (st_store s') = if inb x ks then None else lookup x (st_store s)) /\
+    st_queue s' = filter (fun x => negb (inb x ks)) (st_queue s) /\
+    st_hits s' = st_hits s /\ st_misses s' = st_misses s.
+Proof. exact apply_inval_spec. Qed.
+Print Assumptions C13_removed_exactly_the_matching_entries.
+
+Theorem C13_invalidate_all_with :
+  forall ksel w w' n,
+    invalidate_all_with ksel w = (w', n) ->
+    length w' = length w /\
+    (forall j e, nth_error w j = Some e ->
+       (cond_registered e = true ->
+        nth_error w' j = Some (set_st e (apply_inval (ksel (ce_id e)) (ce_st e)))) /\
+       (cond_registered e = false -> nth_error w' j = Some e)) /\
+    n = count_if cond_registered w.
+Proof. exact invalidate_all_with_spec. Qed.
+Print Assumptions C13_invalidate_all_with.
+
+(* group invalidation leaves every non-matching cache untouched: C12_group_invalidation *)
